@@ -41,28 +41,35 @@ def tlc_phase(ctx):
              ("MC_Layout_gen.cfg", {"simulate": ntr, "depth": 60}),
              ("MC_Layout_enum_cur_sc_%s.cfg" % tier, {}), ("MC_Layout_enum_cur_uc_%s.cfg" % tier, {}),
              ("MC_Layout_enum_gen_sc.cfg", {"simulate": nen, "depth": 8}), ("MC_Layout_enum_gen_uc.cfg", {"simulate": nen, "depth": 8})]
-    cov = {"MC_Layout_fixed_noraise_%s.cfg" % tier, "MC_Layout_enum_sc_%s.cfg" % tier} if ctx.quick else \
-          {"MC_Layout_fixed_noraise_quick.cfg", "MC_Layout_enum_sc_quick.cfg"}
-    if not ctx.quick:
-        jobs += [(c, {}) for c in cov]
     w = 3 if ctx.quick else 5
 
     def one(job):
         c, kw = job
-        r = ctx.tlc("Layout", c, workers=w, timeout=3000, heap="2g" if ctx.quick else "4g", coverage=(c in cov), **kw)
+        r = ctx.tlc("Layout", c, workers=w, timeout=3000, heap="2g" if ctx.quick else "4g", **kw)
         if not r.ok:
             raise vlib.MachineryError("model %s rejected / generator failed (rc=%s):\n%s" % (c, r.rc, r.out[-4000:]))
         return c, r
     res = dict(vlib.pmap(one, jobs, workers=5 if ctx.quick else 3))
     ctx.cov["design"] = {c: {"distinct": res[c].distinct, "generated": res[c].states, "wall_s": round(res[c].wall, 1)} for c in design}
-    # vacuity: every action of the layout half and of the enum half is taken
+    # vacuity (TLC's -coverage is unusably slow on this module): every action left its trace in the emitted behaviours
+    ems = [m for v in res["MC_Layout_emit.cfg"].vcases for m in json.loads(v)["t"]["ms"]]
     taken = set()
-    for c in cov:
-        taken |= {a.split("@")[0] for a, (n, _) in res[c].coverage.items() if n > 0}
-    need = {"AddPlain", "AddBitfield", "AddAnonymous", "Finish", "AddEnumerator", "FinishEnum"}
+    if any(m["w"] == -1 and m["nm"] for m in ems):
+        taken.add("AddPlain")
+    if any(m["w"] != -1 for m in ems):
+        taken.add("AddBitfield")
+    if any(m["w"] == -1 and not m["nm"] for m in ems):
+        taken.add("AddAnonymous")
+    if ems:
+        taken.add("Finish")
+    if res["MC_Layout_enum_cur_sc_%s.cfg" % tier].vcases:
+        taken |= {"AddEnumerator", "FinishEnum"}
+    if res["MC_Layout_gen.cfg"].vcases:
+        taken |= {"Begin", "Pick"}
+    need = {"AddPlain", "AddBitfield", "AddAnonymous", "Finish", "AddEnumerator", "FinishEnum", "Begin", "Pick"}
     if not need <= taken:
         raise vlib.MachineryError("vacuity: actions never taken: %s" % sorted(need - taken))
-    ctx.cov["actions_taken"] = sorted(taken & need)
+    ctx.cov["actions_taken"] = sorted(taken)
     return res
 
 
